@@ -12,23 +12,14 @@ def jobs(tier):
     out = []
     langs = ['java', 'kotlin'] if tier == 'quick' else U.LANGS
     units = ['gen_variable', 'gen_assignment', 'gen_conditional', 'gen_new', 'gen_variable_decl', 'generate_expr', 'gen_field_access',
-             'gen_func_call', 'select_superclass', 'gen_lambda', 'gen_is_expr']
+             'gen_func_call', 'select_superclass', 'gen_lambda', 'gen_is_expr',
+             'gen_equality_expr', 'gen_logical_expr', 'gen_comparison_expr', 'gen_array_expr', 'gen_func_call_ref', 'gen_func_ref']
     for lang in langs:
         for unit in units:
-            nv = 1 if tier == 'quick' else 2
-            extra = dict(nvars=0, with_nested=False) if unit in ('generate_expr', 'gen_lambda') else (
-                dict(nvars=0 if tier == 'quick' else 1, with_nested=True,
-                     **(dict(sym_draws=3 if tier == 'quick' else 5) if unit == 'gen_func_call' else {}))
-                if unit in ('gen_func_call', 'gen_field_access')
-                else (dict(nvars=0, with_nested=False) if unit == 'select_superclass' else dict(nvars=nv)))
-            extra.setdefault('sym_draws', 4 if tier == 'quick' else 6)
+            extra = U.unit_params(unit, tier)
             out.append(Job('%s-%s' % (unit, lang), U.harness, dict(lang=lang, unit=unit, aspect=ASPECT, **extra),
                            split_depth=6, functions=U.FUNCS[unit], stubs=U.STUBS, require_events=['unit:%s' % unit],
-                           budget_s=2400, crosscheck_every=500,
-                           bounds='scope: top-level variable + %d local variable(s) of symbolic type (5 pool types) and finality, '
-                                  'optional nested function scope; expected type (6) and subtype flag symbolic; every RNG outcome '
-                                  'of the first 4 (thorough 6) draws -- gen_func_call 3 (5); later draws take the first element'
-                                  % nv, outside=U.OUT))
+                           budget_s=2400, crosscheck_every=500, bounds=U.unit_bounds(extra), outside=U.OUT))
         out.append(Job('gen_assignment-projected-%s' % lang, U.harness,
                        dict(lang=lang, unit='gen_assignment', aspect=ASPECT, nvars=0, with_nested=False, projected=True),
                        split_depth=6, functions=U.FUNCS['gen_assignment'], stubs=U.STUBS, require_events=['unit:gen_assignment'],
@@ -62,4 +53,16 @@ def mutants():
         return orig(self, etype, only_leaves, True)         # exact-type requests answered with subtypes
     out.append(('gen_variable ignores subtype=False', lambda: setattr(Generator, 'gen_variable', bad),
                 lambda: setattr(Generator, 'gen_variable', orig)))
+    orig_cmp = Generator.gen_comparison_expr
+
+    def bad_cmp(self, expr_type=None, only_leaves=False):
+        saved = self.bt_factory.get_number_types
+        # a string may be compared with a number
+        self.bt_factory.get_number_types = lambda: saved() + [self.bt_factory.get_string_type()]
+        try:
+            return orig_cmp(self, expr_type, only_leaves)
+        finally:
+            self.bt_factory.get_number_types = saved
+    out.append(('gen_comparison_expr compares numbers with strings', lambda: setattr(Generator, 'gen_comparison_expr', bad_cmp),
+                lambda: setattr(Generator, 'gen_comparison_expr', orig_cmp)))
     return out
